@@ -186,6 +186,10 @@ LeafTruth(f, lf) ==
   IF ~HasCol(f, lf.col) THEN St("err")
   ELSE LET col == ColOf(f, lf.col) IN
   IF col.typ = "Undefined" THEN St("unspec")
+  ELSE IF lf.cmpk = "str" /\ lf.cmp = "not in" THEN
+       \* filter.Nin is exported but no column implements it; it only works as the built-in inverse of
+       \* "in" (Inverse: true). No document says which: accept error and result alike (DESIGN.md 5.4).
+       St("unspec")
   ELSE IF lf.cmpk = "bad" THEN (IF lf.arg.t = "col" /\ ~HasCol(f, lf.arg.s) THEN St("err") ELSE St("err"))
   ELSE IF lf.arg.t = "col" THEN
        IF lf.cmpk = "fn1" THEN (IF ~HasCol(f, lf.arg.s) \/ lf.rest # "bool" \/ lf.arity # 1 THEN St("err") ELSE St("unspec"))
